@@ -88,10 +88,11 @@ def run_scenario(res: Result, seed: int) -> None:
     layout = rng.choice(["single", "split"])
     nsvc = rng.choice([1, 2, 3])
     svcs: List[Svc] = []
+    hostnames = [R.spell(rng, "host%d" % k) + ".local." for k in range(nsvc)]
     for i in range(nsvc):
         s = R.gen_service(rng, type_=rng.choice(["_http._tcp.local.", "_ipp._tcp.local."]), min_ttl=8)
         s.name = "svc%d.%s" % (i, s.type)
-        s.server = "host%d.local." % (i if rng.random() < 0.7 else 0)
+        s.server = hostnames[i if rng.random() < 0.7 else 0]
         svcs.append(s)
     model = ResponderModel()
     desc: Dict[str, Any] = {"layout": layout, "svcs": [s.brief() for s in svcs], "queries": []}
@@ -326,8 +327,11 @@ def run_twins(res: Result, seed: int) -> None:
     gap = rng.choice([0.0, 1.0, 100.0, 500.0, 900.0, 1500.0])
     qkind = rng.choice(["ptr", "srv", "a"])
     qid = rng.choice([0, 0, 4660])
-    second = rng.choice(["other-address", "other-port"])
-    desc = {"twins": True, "gap": gap, "question": qkind, "id": qid, "second": second, "layout": layout}
+    second = rng.choice(["other-address", "other-port", "same-sender-qu"])
+    # same-sender-qu: an mDNS querier (port 5353) repeats a query that contains a QU question - first, in the middle or last
+    # among QM questions - within a second: 'a QU question from port 5353 is answered by unicast', every time it is asked
+    qu_pos = rng.choice(["only", "first", "middle", "last"])
+    desc = {"twins": True, "qu_pos": qu_pos, "gap": gap, "question": qkind, "id": qid, "second": second, "layout": layout}
 
     def viol(kind: str, detail: str, **sig: Any) -> None:
         res.violation("c11.unicast", kind, detail, dict(sig, family="twins", layout=layout), {"seed": seed, "twins": True, "scenario": desc})
@@ -343,9 +347,15 @@ def run_twins(res: Result, seed: int) -> None:
             await t
             await sim.sleep_ms(3000)
             q = {"ptr": [(T, 12, False)], "srv": [(s.name, 33, False)], "a": [(s.server, 1, False)]}[qkind]
+            if second == "same-sender-qu":
+                quq = (q[0][0], q[0][1], True)
+                others = [("nobody._http._tcp.local.", 33, False), (s.name, 16, False)]
+                q = {"only": [quq], "first": [quq] + others, "middle": [others[0], quq, others[1]], "last": others + [quq]}[qu_pos]
             data = R.build_query(q, id_=qid)
             a = sim.net.endpoint("10.0.0.61", 40001)
             b = sim.net.endpoint("10.0.0.62", 40001) if second == "other-address" else sim.net.endpoint("10.0.0.61", 40002)
+            if second == "same-sender-qu":
+                a = b = sim.net.endpoint("10.0.0.61", 5353)
             out["a"], out["b"] = a, b
             out["mark"] = len(sim.net.trace)
             sim.net.inject_now(host, data, (a.ip, a.port), sock=host.listen[0])
@@ -360,6 +370,14 @@ def run_twins(res: Result, seed: int) -> None:
             return
         res.mon("c11.unicast")
         res.mon("c11.unicast.twins")
+        if second == "same-sender-qu":
+            ep = out["a"]
+            got = [e for e in sim.net.trace[out["mark"]:] if not e["mcast"] and tuple(e["dst"]) == (ep.ip, ep.port)]
+            if len(got) < 2 and gap > 0:
+                viol("repeated_qu_query_not_answered", "an mDNS querier asked a query with a QU question (%s among its questions) twice, %.0f ms apart; "
+                     "%d unicast repl%s instead of one per query" % (qu_pos, gap, len(got), "y" if len(got) == 1 else "ies"), qu_pos=qu_pos)
+            res.cls("twins", second, "gap=%d" % gap, qkind, layout, qu_pos)
+            return
         for who in ("a", "b"):
             ep = out[who]
             got = [e for e in sim.net.trace[out["mark"]:] if not e["mcast"] and tuple(e["dst"]) == (ep.ip, ep.port)]
